@@ -72,13 +72,13 @@ def crc32_cfgs():
     for ln in (0, 1, 2, 3):
         for al in range(8):
             quick = (ln == 1 and al in (0, 1, 3)) or (ln == 2 and al in (0, 3)) or (ln == 0 and al == 1)
-            c.append({"MODE": 3, "LEN": ln, "ALIGN": al, "_tier": "quick" if quick else "thorough"})
+            c.append({"MODE": 3, "LEN": ln, "OFF": al, "_tier": "quick" if quick else "thorough"})
     for ln, al in ((1, 0), (1, 1), (2, 2)):
-        c.append({"MODE": 4, "LEN": ln, "ALIGN": al})
+        c.append({"MODE": 4, "LEN": ln, "OFF": al})
     for ln in (1, 2, 3):
         for al in range(8):
             if (ln, al) not in ((1, 0), (1, 1), (2, 2)):
-                c.append({"MODE": 4, "LEN": ln, "ALIGN": al, "_tier": "thorough"})
+                c.append({"MODE": 4, "LEN": ln, "OFF": al, "_tier": "thorough"})
     for m in (5, 6, 7, 8):
         c.append({"MODE": m})
     return c
